@@ -246,7 +246,7 @@ func c05LibraryContexts(c C05Case, mask int, k, full interface{}, r *Rec) *Viola
 	}
 	// (slice) available variables first, context from the smaller config
 	us := *u
-	us.RegMode, us.Vars = RegGetOrReg, nil
+	us.RegMode, us.Vars, us.Decoys = RegGetOrReg, nil, false // (nothing may be registered after the unavailable variables)
 	for _, vd := range u.Vars {
 		if avail[vd.Name] {
 			us.Vars = append(us.Vars, vd)
